@@ -171,6 +171,11 @@ fn exercise(bytes: &[u8], reader_too: bool) -> String {
                 let r = catch(|| serde_saphyr::with_deserializer_from_reader_with_options(std::io::Cursor::new(bytes.to_vec()), opts.clone(), |de| Seed(ty).deserialize(de)).map(|_| ()).map_err(|e| render_all(&e)));
                 if r.is_err() { return tag("reader"); }
                 if ti == 0 {
+                    // the whole-input reader entry point proper (it attaches the snippet from its ring of recent bytes)
+                    let r = catch(|| serde_saphyr::from_reader_with_options::<_, serde_json::Value>(std::io::Cursor::new(bytes.to_vec()), opts.clone()).map(|_| ()).map_err(|e| render_all(&e)));
+                    if r.is_err() { return tag("from_reader"); }
+                    let r = catch(|| serde_saphyr::from_reader_with_options::<_, bool>(std::io::Cursor::new(bytes.to_vec()), opts.clone()).map(|_| ()).map_err(|e| render_all(&e)));
+                    if r.is_err() { return tag("from_reader_bool"); }
                     let r = catch(|| serde_saphyr::with_deserializer_from_reader_with_options(OneByte(std::io::Cursor::new(bytes.to_vec())), opts.clone(), |de| Seed(ty).deserialize(de)).map(|_| ()).map_err(|e| render_all(&e)));
                     if r.is_err() { return tag("reader1"); }
                     if let Ok(text) = std::str::from_utf8(bytes) {
@@ -371,6 +376,17 @@ fn generate(a: &Args) -> i32 {
                 c.extend_from_slice(&b);
                 inputs.push(c);
             }
+        }
+    }
+    for bad in [&b"\xff"[..], b"\xc3", b"\xe2\x82", b"\xff\xc3\xa9"] {
+        for (prefix, suffix) in [(&b""[..], &b"a: 1\n"[..]), (b"- 1\n", b"- 2\n")] {
+            let mut b: Vec<u8> = prefix.to_vec();
+            b.extend_from_slice(b"# ");
+            b.extend_from_slice(&vec![b'c'; 4000]);
+            b.extend_from_slice(bad);
+            b.push(b'\n');
+            b.extend_from_slice(suffix);
+            inputs.push(b);
         }
     }
     let deep = deep_inputs();
